@@ -20,6 +20,11 @@ else:
     import atexit
     atexit.register(lambda: subprocess.run(["git", "-C", "/repo", "worktree", "remove", "--force", str(REPO)]))
 os.environ["VERIF_REPO"] = str(REPO)
+# evidence of runs against a seeded (broken) tree must not replace the committed evidence of the unchanged tree
+_EVD = tempfile.mkdtemp(prefix="seeded_evidence_", dir="/tmp")
+os.environ["VERIF_EVIDENCE_DIR"] = _EVD
+import atexit as _ae
+_ae.register(lambda: shutil.rmtree(_EVD, ignore_errors=True))
 args = sys.argv[1:]
 allc = "--all" in args
 tier = "quick"
